@@ -1,6 +1,7 @@
 package c20
 
 import (
+	"bytes"
 	"context"
 	"crypto/sha256"
 	"encoding/json"
@@ -14,7 +15,9 @@ import (
 
 	_ "crypto/sha512"
 
+	"github.com/opencontainers/go-digest"
 	ocispec "github.com/opencontainers/image-spec/specs-go/v1"
+	oras "oras.land/oras-go/v2"
 	"oras.land/oras-go/v2/errdef"
 	"oras.land/oras-go/v2/registry"
 	"oras.land/oras-go/v2/registry/remote"
@@ -281,7 +284,7 @@ func judge(s string) (verdict int, f *vt.Fail) {
 // ---------------------------------------------------------------------------------
 // exhaustive leg
 
-const alphabet = "aA0.-_:@/[]% "
+const alphabet = "aA0.-_:@/[]%? "
 
 func exhaustive(t *testing.T, env vt.Env) ([]byte, *vt.Fail) {
 	L := 6
@@ -473,10 +476,26 @@ type recTransport struct {
 	reqs []*http.Request
 }
 
+var helperManifest = []byte(`{"schemaVersion":2,"mediaType":"application/vnd.oci.image.manifest.v1+json","config":{"mediaType":"application/vnd.oci.empty.v1+json","digest":"sha256:44136fa355b3678a1146ad16f7e8649e94fb4fc21fe77e8310c060f61caaff8a","size":2},"layers":[]}`)
+var helperDesc = ocispec.Descriptor{MediaType: "application/vnd.oci.image.manifest.v1+json", Digest: digest.FromBytes(helperManifest), Size: int64(len(helperManifest))}
+
 func (r *recTransport) RoundTrip(req *http.Request) (*http.Response, error) {
 	r.mu.Lock()
 	r.reqs = append(r.reqs, req)
 	r.mu.Unlock()
+	if req.Body != nil {
+		io.Copy(io.Discard, req.Body)
+		req.Body.Close()
+	}
+	// the helper manifest exists (so that Tag gets as far as its PUT)
+	if (req.Method == http.MethodGet || req.Method == http.MethodHead) && strings.HasSuffix(req.URL.Path, "/manifests/"+helperDesc.Digest.String()) {
+		h := http.Header{"Content-Type": []string{helperDesc.MediaType}, "Docker-Content-Digest": []string{helperDesc.Digest.String()}, "Content-Length": []string{fmt.Sprint(len(helperManifest))}}
+		var body io.ReadCloser = http.NoBody
+		if req.Method == http.MethodGet {
+			body = io.NopCloser(bytes.NewReader(helperManifest))
+		}
+		return &http.Response{StatusCode: 200, Status: "200 OK", Proto: "HTTP/1.1", ProtoMajor: 1, ProtoMinor: 1, Header: h, Body: body, ContentLength: int64(len(helperManifest)), Request: req}, nil
+	}
 	return &http.Response{StatusCode: 404, Status: "404 Not Found", Proto: "HTTP/1.1", ProtoMajor: 1, ProtoMinor: 1,
 		Header: http.Header{"Content-Type": []string{"application/json"}}, Body: io.NopCloser(strings.NewReader(`{"errors":[]}`)), ContentLength: 13, Request: req}, nil
 }
@@ -501,9 +520,9 @@ func runG(c GCase) (res vt.Result, fail *vt.Fail) {
 	if err != nil {
 		return res, vt.Failf("C20/newrepository-rejects", "NewRepository(%q): %v", want.Registry+"/"+want.Repository, err)
 	}
+	var forms []string
 	if want.Reference != "" {
 		isDigest := strings.Contains(want.Reference, ":")
-		var forms []string
 		fq := want.Registry + "/" + want.Repository
 		if isDigest {
 			forms = []string{want.Reference, "sometag@" + want.Reference, fq + "@" + want.Reference, fq + ":sometag@" + want.Reference}
@@ -558,6 +577,14 @@ func runG(c GCase) (res vt.Result, fail *vt.Fail) {
 		repo.FetchReference(ctx, want.Reference)
 	}
 	repo.Tags(ctx, "", func([]string) error { return nil })
+	// every spelling of the reference, through every by-reference entry point
+	for _, form := range forms {
+		repo.Resolve(ctx, form)
+		repo.FetchReference(ctx, form)
+		repo.PushReference(ctx, helperDesc, bytes.NewReader(helperManifest), form)
+		repo.Tag(ctx, helperDesc, form)
+		oras.Tag(ctx, repo, helperDesc.Digest.String(), form)
+	}
 	host := want.Registry
 	if host == "docker.io" {
 		host = "registry-1.docker.io"
@@ -580,7 +607,7 @@ func runG(c GCase) (res vt.Result, fail *vt.Fail) {
 				okPath = true
 			}
 		}
-		if u.Path == prefix+"tags/list" {
+		if u.Path == prefix+"tags/list" || u.Path == prefix+"manifests/"+helperDesc.Digest.String() {
 			okPath = true
 		}
 		if !okPath {
